@@ -34,7 +34,7 @@ Inductive lstate :=
 | Send (c : chunk) (k : after)      (* stub.Output <- c *)
 | SendT (c : chunk) (dl : Z)        (* stub.WriteOutput(c, 5s); then Pipe returns *)
 | LatWait (c : chunk) (sleep dl : Z)
-| BwInst (p : chunk) (sl dl : Z)
+| BwInst (p : chunk) (r sl dl : Z)      (* r = the rate the loop test read (the cut may or may not re-read it) *)
 | BwFinal (p : chunk) (sl t0 dl : Z)
 | SlWait (c : chunk) (rest : list Z) (o tot : Z) (dl : Z)
 | ScWait (dl : Z)
@@ -59,7 +59,7 @@ Definition mode_of (s : lstate) : mode :=
   | Send c _ => MSend c
   | SendT c dl => MSendT c dl
   | LatWait _ _ dl => MSelect false true (Some dl)
-  | BwInst _ _ dl => MSelect false true (Some dl)
+  | BwInst _ _ _ dl => MSelect false true (Some dl)
   | BwFinal _ _ _ dl => MSelect false true (Some dl)
   | SlWait _ _ _ _ dl => MSelect false true (Some dl)
   | ScWait dl => MSelect false true (Some dl)
@@ -129,7 +129,7 @@ Definition latency_delay (lat jit : Z) (draws : list Z) : option Z * list Z :=
 
 (** ---- bandwidth *)
 Definition bw_loop (rate : Z) (p : chunk) (sl now : Z) : lstate :=
-  if bw_split_test (zlen (cdata p)) rate then BwInst p sl (now + bw_instalment_ns)
+  if bw_split_test (zlen (cdata p)) rate then BwInst p rate sl (now + bw_instalment_ns)
   else BwFinal p sl now (now + sl).
 
 (** ---- limit_data *)
@@ -195,14 +195,17 @@ Definition on_input (tx : toxic) (ps : pstate) (now : Z) (draws : list Z) (c : o
   | _ => (s, draws)
   end.
 
-Definition on_timer (tx : toxic) (now : Z) (s : lstate) : lstate :=
+(** [tested]: the cut of an instalment uses the rate value the loop test read ([true], one read per
+    round) or reads the shared attribute again ([false]: an update between test and cut changes it).
+    Which one the source does is the regenerated fact [bw_cut_uses_tested_rate]. *)
+Definition on_timer_gen (tested : bool) (tx : toxic) (now : Z) (s : lstate) : lstate :=
   match s with
   | Idle _ (Some _) => Closing                                         (* timeout fired *)
   | LatWait c sleep _ => Send (mkChunk (cdata c) (cts c + sleep)) (KIdle 0)
-  | BwInst p sl _ =>
+  | BwInst p r0 sl _ =>
     match tx with
     | TBandwidth rate =>
-      let r := bw_instalment_bytes rate in
+      let r := bw_instalment_bytes (if tested then r0 else rate) in
       if slice_ok 0 r (zlen (cdata p)) then
         Send (mkChunk (slice_to (cdata p) r) (cts p))
              (KBwLoop (mkChunk (slice_from (cdata p) r) (cts p)) (sl - bw_instalment_ns))
@@ -215,6 +218,8 @@ Definition on_timer (tx : toxic) (now : Z) (s : lstate) : lstate :=
   | RpWait _ => Closing
   | _ => s
   end.
+
+Definition on_timer := on_timer_gen bw_cut_uses_tested_rate.
 
 (** The send completed. Returns the new local state and persistent state. *)
 Definition on_sent (tx : toxic) (ps : pstate) (now : Z) (s : lstate) : lstate * pstate :=
@@ -245,7 +250,7 @@ Definition on_interrupt (now : Z) (s : lstate) : lstate :=
   match s with
   | Idle _ _ => Exited
   | LatWait c _ _ => Send c KExit
-  | BwInst p _ _ => SendT p (now + flush_timeout_ns)
+  | BwInst p _ _ _ => SendT p (now + flush_timeout_ns)
   | BwFinal p _ _ _ => SendT p (now + flush_timeout_ns)
   | SlWait c _ _ _ _ => Send c KExit
   | ScWait _ => Exited
@@ -268,7 +273,7 @@ Definition held (s : lstate) : bytes :=
   | Send c k => cdata c ++ after_held k
   | SendT c _ => cdata c
   | LatWait c _ _ => cdata c
-  | BwInst p _ _ => cdata p
+  | BwInst p _ _ _ => cdata p
   | BwFinal p _ _ _ => cdata p
   | SlWait c _ _ _ _ => cdata c
   | _ => []
